@@ -102,6 +102,10 @@ pub struct LayoutPlan {
     pub v3_size_high_garbage: bool,
     /// pad with free sectors until at least this many FAT sectors are needed
     pub min_fat_sectors: u32,
+    /// FAT sectors beyond what the file needs (their cells, which describe sectors past the
+    /// end of the file, are all FREESECT).  Legal, and lets a small file have DIFAT sectors:
+    /// with 110 or more FAT sectors in total the DIFAT spills out of the header in V3 and V4.
+    pub extra_fat_sectors: u32,
     /// false: balanced trees; true: per storage balanced or insertion-built
     pub library_like_trees: bool,
 }
@@ -133,6 +137,7 @@ pub fn plan_from_seed(seed: u64, version: u16) -> LayoutPlan {
         fragment_mini,
         v3_size_high_garbage: version == 3 && garbage,
         min_fat_sectors: 0,
+        extra_fat_sectors: 0,
         library_like_trees,
     }
 }
@@ -637,6 +642,12 @@ pub fn write_image(content: &Dump, plan: &LayoutPlan) -> Result<Vec<u8>, String>
         n_fat = fp.0;
         n_difat = fp.1;
         debug_assert!(n_fat >= plan.min_fat_sectors as u64);
+    }
+    if plan.extra_fat_sectors > 0 {
+        // more FAT sectors than needed; the DIFAT has to list them all
+        n_fat += plan.extra_fat_sectors as u64;
+        n_difat = difat_for(n_fat);
+        debug_assert!((base_used + n_free) as u64 + n_fat + n_difat <= n_fat * cells_per_sector as u64);
     }
     let n_fat = n_fat as usize;
     let n_difat = n_difat as usize;
@@ -1539,6 +1550,7 @@ mod tests {
             fragment_mini: 0,
             v3_size_high_garbage: false,
             min_fat_sectors: 0,
+        extra_fat_sectors: 0,
             library_like_trees: false,
         }
     }
